@@ -465,6 +465,9 @@ func genC13(r *Rnd, t Tier) *Case {
 		p.DelayMax = p.DelayMin + time.Duration(r.Range(1, 50))*unit
 	default:
 		p.DelayFn = []D{time.Duration(r.Range(0, 30)) * unit, time.Duration(r.Range(1, 30)) * unit, -1}
+		if r.P(0.3) {
+			p.DelayFnTakes = time.Duration(r.Range(1, 20)) * unit
+		}
 		if r.Bool() {
 			p.DelayKind = DelayBackoff
 			p.Delay = time.Duration(r.Range(1, 20)) * unit
@@ -485,7 +488,7 @@ func genC13(r *Rnd, t Tier) *Case {
 			p.JitterFactor = pick[float32](r, 0.1, 0.25, 0.5, 0.9)
 		}
 	}
-	if r.P(0.35) {
+	if r.P(0.35) || (p.DelayFnTakes > 0 && r.P(0.7)) {
 		p.MaxDuration = time.Duration(r.Range(10, 300)) * unit
 	}
 	if p.DelayKind != DelayNone && r.P(0.2) {
